@@ -24,12 +24,12 @@ import (
 )
 
 type op struct {
-	Client   int           `json:"client"`
-	Seq      int           `json:"seq"`
-	Args     []string      `json:"args"`
-	Call     int64         `json:"call"`
-	Ret      int64         `json:"ret"`
-	Reply    string        `json:"reply"`
+	Client   int      `json:"client"`
+	Seq      int      `json:"seq"`
+	Args     []string `json:"args"`
+	Call     int64    `json:"call"`
+	Ret      int64    `json:"ret"`
+	Reply    string   `json:"reply"`
 	reply    respc.Reply
 	hasReply bool
 	token    string
@@ -89,6 +89,7 @@ type histOpts struct {
 	lives            int
 	expiry           bool
 	race             bool
+	storm            bool // expiry storm: every client alternates SET EX 1ms / SET without EX on private ids
 	caseNo           int
 }
 
@@ -117,8 +118,26 @@ func nextCmd(g *kmodel.Gen, client int, writer bool, seq int, expiry bool) ([]st
 					cmd[i+2] = tok
 				}
 			}
-			if expiry && g.R.Intn(6) == 0 {
-				cmd = []string{"SET", "xp", "e" + strconv.Itoa(g.R.Intn(3)), "FIELD", "tok", tok, "EX", "0.05", "POINT", "1", "1"}
+			if expiry && g.R.Intn(5) == 0 {
+				// objects that expire soon, are re-SET without a deadline, persisted or
+				// re-armed while the background sweeper runs
+				id := "e" + strconv.Itoa(g.R.Intn(3))
+				switch g.R.Intn(5) {
+				case 0, 1:
+					cmd = []string{"SET", "xp", id, "FIELD", "tok", tok, "EX", "0.0" + strconv.Itoa(1+g.R.Intn(9)), "POINT", "1", "1"}
+				case 2:
+					cmd = []string{"SET", "xp", id, "FIELD", "tok", tok, "POINT", "2", "2"}
+				case 3:
+					if !writer {
+						return []string{"GET", "xp", id}, ""
+					}
+					return []string{casing("PERSIST", client), "xp", id}, ""
+				default:
+					if !writer {
+						return []string{"GET", "xp", id, "WITHFIELDS"}, ""
+					}
+					return []string{casing("EXPIRE", client), "xp", id, "0.0" + strconv.Itoa(1+g.R.Intn(9))}, ""
+				}
 			}
 		case "fset":
 			tok = fmt.Sprintf("T%dx%d", client, seq)
@@ -232,6 +251,15 @@ func runHistory(ctx *core.Ctx, bin string, o histOpts) (*history, error) {
 			c.Timeout = 30 * time.Second
 			for i := 0; i < o.opsPerClient; i++ {
 				cmd, tok := nextCmd(g, ci, writer, i, o.expiry)
+				if o.storm {
+					tok = fmt.Sprintf("T%dx%d", ci, i)
+					id := fmt.Sprintf("s%d_%d", ci, (i/2)%40)
+					if i%2 == 0 {
+						cmd = []string{"SET", "xp", id, "FIELD", "tok", tok, "EX", "0.001", "POINT", "1", "1"}
+					} else {
+						cmd = []string{"SET", "xp", id, "FIELD", "tok", tok, "POINT", "2", "2"}
+					}
+				}
 				p := &op{Client: ci, Seq: i, Args: cmd, token: tok}
 				p.Call = now()
 				rep, err := c.Do(cmd...)
@@ -358,6 +386,7 @@ func checkLogOrder(h *history, writers int, stats map[string]int64) *verdict {
 	}
 	// 1. match entries to ops
 	entryOp := make([]*op, len(h.entries)+1)
+	sweeper := map[int]bool{}
 	perClientEntries := map[int][]int{}
 	for i, e := range h.entries {
 		pos := i + 1
@@ -379,6 +408,7 @@ func checkLogOrder(h *history, writers int, stats map[string]int64) *verdict {
 		w := strings.ToLower(e.Args[0])
 		if w == "del" && e.Args[0] == "del" && len(e.Args) == 3 && e.Args[1] == "xp" {
 			stats["sweeper_entries"]++
+			sweeper[pos] = true
 			continue // the sweeper's delete of an expired object
 		}
 		if !isWriteWord(w) {
@@ -430,41 +460,7 @@ func checkLogOrder(h *history, writers int, stats map[string]int64) *verdict {
 			}
 		}
 	}
-	// 2. replay in log order; matched op's reply must equal the model's
-	m := kmodel.New()
-	states := make([]*kmodel.Model, len(h.entries)+1)
-	states[0] = m.Clone()
-	for i, e := range h.entries {
-		pos := i + 1
-		exp, known := m.Apply(e.Args)
-		if !known {
-			return mk("harness:model-unknown", fmt.Sprintf("model does not cover logged command %q", e.Args), nil)
-		}
-		if p := entryOp[pos]; p != nil && p.hasReply {
-			if ok, why := m.Match(exp, p.reply); !ok {
-				return mk("reply-not-explained-by-log-order:"+strings.ToLower(e.Args[0]), fmt.Sprintf("client %d %q at log position %d: %s (replaying the log in file order through the sequential model)", p.Client, p.Args, pos, why), map[string]any{"op": p, "log_tail": tailEntries(h.entries, pos, 12)})
-			}
-			stats["write_replies_checked"]++
-		}
-		states[pos] = m.Clone()
-	}
-	// 3. real time for writes: if a returned before b was called then pos(a) < pos(b)
-	var maxCall int64 = -1
-	var maxCallOp *op
-	for pos := 1; pos <= len(h.entries); pos++ {
-		p := entryOp[pos]
-		if p == nil {
-			continue
-		}
-		if p.hasReply && maxCallOp != nil && p.Ret < maxCall {
-			return mk("log-order-contradicts-real-time", fmt.Sprintf("%q (client %d) returned at %d ns, before %q (client %d) was called at %d ns, yet it is later in the log (%d > %d)", p.Args, p.Client, p.Ret, maxCallOp.Args, maxCallOp.Client, maxCallOp.Call, p.pos, maxCallOp.pos), map[string]any{"a": p, "b": maxCallOp})
-		}
-		if p.Call > maxCall {
-			maxCall = p.Call
-			maxCallOp = p
-		}
-	}
-	// 4. reads and no-op writes
+	// (windows of the reads and no-op writes: they depend on the matching only)
 	type wr struct {
 		t   int64
 		pos int
@@ -499,15 +495,7 @@ func checkLogOrder(h *history, writers int, stats map[string]int64) *verdict {
 		}
 	}
 	sort.Slice(reads, func(i, j int) bool { return reads[i].Call < reads[j].Call })
-	hp := &retHeap{}
-	floor := 0
-	for _, p := range reads {
-		for hp.Len() > 0 && (*hp)[0].ret < p.Call {
-			a := heap.Pop(hp).(*assigned)
-			if a.pos > floor {
-				floor = a.pos
-			}
-		}
+	window := func(p *op) (int, int) {
 		lo := 0
 		if i := sort.Search(len(byRet), func(i int) bool { return byRet[i].t >= p.Call }); i > 0 {
 			lo = retMax[i-1]
@@ -523,6 +511,77 @@ func checkLogOrder(h *history, writers int, stats map[string]int64) *verdict {
 		if hi < lo {
 			hi = lo
 		}
+		return lo, hi
+	}
+	// model snapshots are only kept at the log positions some read may be placed at
+	need := make([]bool, len(h.entries)+1)
+	for _, p := range reads {
+		lo, hi := window(p)
+		for i := lo; i <= hi; i++ {
+			need[i] = true
+		}
+	}
+	// 2. replay in log order; matched op's reply must equal the model's
+	m := kmodel.New()
+	states := make([]*kmodel.Model, len(h.entries)+1)
+	if need[0] {
+		states[0] = m.Clone()
+	}
+	for i, e := range h.entries {
+		pos := i + 1
+		if sweeper[pos] {
+			// the background sweeper may only delete an object that has a deadline at
+			// this point of the serial order
+			o := m.Cols[e.Args[1]][e.Args[2]]
+			if o == nil || !o.HasEx {
+				state := "absent"
+				if o != nil {
+					state = "present without a deadline"
+				}
+				return mk("sweeper-deletes-object-without-deadline", fmt.Sprintf("log position %d: the expiry sweeper logged %q but, replaying the log, the object is %s at that point (a deadline was removed or the object re-SET without EX before)", pos, e.Args, state), map[string]any{"log_tail": tailEntries(h.entries, pos, 10)})
+			}
+		}
+		exp, known := m.Apply(e.Args)
+		if !known {
+			return mk("harness:model-unknown", fmt.Sprintf("model does not cover logged command %q", e.Args), nil)
+		}
+		if p := entryOp[pos]; p != nil && p.hasReply {
+			if ok, why := m.Match(exp, p.reply); !ok {
+				return mk("reply-not-explained-by-log-order:"+strings.ToLower(e.Args[0]), fmt.Sprintf("client %d %q at log position %d: %s (replaying the log in file order through the sequential model)", p.Client, p.Args, pos, why), map[string]any{"op": p, "log_tail": tailEntries(h.entries, pos, 12)})
+			}
+			stats["write_replies_checked"]++
+		}
+		if need[pos] {
+			states[pos] = m.Clone()
+		}
+	}
+	// 3. real time for writes: if a returned before b was called then pos(a) < pos(b)
+	var maxCall int64 = -1
+	var maxCallOp *op
+	for pos := 1; pos <= len(h.entries); pos++ {
+		p := entryOp[pos]
+		if p == nil {
+			continue
+		}
+		if p.hasReply && maxCallOp != nil && p.Ret < maxCall {
+			return mk("log-order-contradicts-real-time", fmt.Sprintf("%q (client %d) returned at %d ns, before %q (client %d) was called at %d ns, yet it is later in the log (%d > %d)", p.Args, p.Client, p.Ret, maxCallOp.Args, maxCallOp.Client, maxCallOp.Call, p.pos, maxCallOp.pos), map[string]any{"a": p, "b": maxCallOp})
+		}
+		if p.Call > maxCall {
+			maxCall = p.Call
+			maxCallOp = p
+		}
+	}
+	// 4. reads and no-op writes
+	hp := &retHeap{}
+	floor := 0
+	for _, p := range reads {
+		for hp.Len() > 0 && (*hp)[0].ret < p.Call {
+			a := heap.Pop(hp).(*assigned)
+			if a.pos > floor {
+				floor = a.pos
+			}
+		}
+		lo, hi := window(p)
 		from := lo
 		if floor > from {
 			from = floor
@@ -730,7 +789,7 @@ func Run(ctx *core.Ctx) {
 			defer func() { <-sem }()
 			r := ctx.SubRng(int64(i) + 70000)
 			o := histOpts{writers: 2 + r.Intn(7), readers: []int{0, 2, 8, 24}[r.Intn(4)], opsPerClient: ctx.Pick(400, 1200), spinlock: i%2 == 1,
-				gomaxprocs: []int{2, 4, 16}[i%3], lives: []int{0, 2, 4}[i%3], expiry: i%4 == 0, caseNo: i}
+				gomaxprocs: []int{2, 4, 16}[i%3], lives: []int{0, 2, 4}[i%3], expiry: i%2 == 0, caseNo: i}
 			h, err := runHistory(ctx, bin, o)
 			if err != nil {
 				ctx.Inconclusive("long history: " + err.Error())
@@ -779,6 +838,40 @@ func Run(ctx *core.Ctx) {
 			}
 			if i == 0 {
 				ctx.Sample(map[string]any{"config": cfg, "ops": len(h.ops), "log_entries": len(h.entries), "overlapping_pairs": pairs, "first_ops": sampleOps(h.ops, 6)})
+			}
+		}(i)
+	}
+	wg.Wait()
+	// ---- expiry storms: the sweeper against clients that re-SET expiring objects without a deadline
+	for i := 0; i < ctx.Pick(3, 20); i++ {
+		wg.Add(1)
+		sem <- struct{}{}
+		go func(i int) {
+			defer wg.Done()
+			defer func() { <-sem }()
+			o := histOpts{writers: 8, readers: 16, opsPerClient: ctx.Pick(1600, 4000), spinlock: i%2 == 1, gomaxprocs: 16, expiry: true, storm: true, caseNo: 30000 + i}
+			h, err := runHistory(ctx, bin, o)
+			if err != nil {
+				ctx.Inconclusive("storm history: " + err.Error())
+				return
+			}
+			if h.crashed != "" {
+				ctx.Violation("runtime-fatal:"+h.crashed, "server died during the expiry storm: "+h.crashed, map[string]any{"stderr": h.stderr})
+				return
+			}
+			ctx.Eval(1)
+			local := map[string]int64{}
+			v := checkLogOrder(h, o.writers, local)
+			smu.Lock()
+			stats["storm_ops"] += int64(len(h.ops))
+			stats["storm_sweeper_entries"] += local["sweeper_entries"]
+			smu.Unlock()
+			if v != nil && !strings.HasPrefix(v.key, "harness:") {
+				ctx.Violation(v.key, v.what+" [expiry storm]", v.detail)
+				return
+			}
+			if local["sweeper_entries"] > 0 {
+				ctx.Distinct(fmt.Sprintf("storm|%d", i))
 			}
 		}(i)
 	}
